@@ -25,6 +25,7 @@ mod e2e;
 
 use rs_matter::acl::{Accessor, AccessorSubjects};
 use rs_matter::dm::{Access, Attribute, Cluster, Command, DeviceType, Endpoint, Metadata, Node, Quality};
+use std::num::NonZeroU8;
 use rs_matter::im::{expand_invoke, expand_read, expand_write, IMStatusCode, InvReq, ReadReq, ReportDataReq, WriteReq};
 use rs_matter::tlv::TLVElement;
 use rs_matter::Matter;
@@ -170,7 +171,8 @@ fn inv_req(paths: &[P], timed: bool) -> Vec<u8> {
 }
 
 /// ReadRequest carrying event paths only
-fn event_read_req(paths: &[P]) -> Vec<u8> {
+/// `fabric_filtered`: the requester-controlled `isFabricFiltered` field of the ReadRequest
+fn event_read_req(paths: &[P], fabric_filtered: bool) -> Vec<u8> {
     let mut b = vec![0x15, 0x36, 0x01];
     for p in paths {
         b.push(0x17);
@@ -178,7 +180,7 @@ fn event_read_req(paths: &[P]) -> Vec<u8> {
         b.push(0x18);
     }
     b.push(0x18);
-    b.extend_from_slice(&[0x29, 0x03]); // fabric filtered = true
+    b.extend_from_slice(&[if fabric_filtered { 0x29 } else { 0x28 }, 0x03]); // isFabricFiltered
     b.extend_from_slice(&[0x24, 0xff, 13]);
     b.push(0x18);
     b
@@ -243,19 +245,31 @@ fn run_e2e(matter: &Matter<'_>, env: &e2e::Env, node: &'static Node<'static>, w:
     let flag = flags.first().copied().unwrap_or(false);
     let chunk_paths: Vec<Vec<P>> = w[8].split('+').map(parse_paths).collect();
     let paths = chunk_paths.first().cloned().unwrap_or_default();
-    let emit: Vec<(u16, u32, u32, u8)> = if w[9] == "-" {
+    let emit: Vec<(u16, u32, u32, e2e::FabF)> = if w[9] == "-" {
         Vec::new()
     } else {
         w[9].split(',')
             .filter_map(|t| {
                 let mut it = t.split('.');
-                Some((it.next()?.parse().ok()?, it.next()?.parse().ok()?, it.next()?.parse().ok()?, it.next()?.parse().ok()?))
+                let (e, c, v) = (it.next()?.parse().ok()?, it.next()?.parse().ok()?, it.next()?.parse().ok()?);
+                // `0` no FabricIndex field, `k` fabric index k, `z` fabric index 0, `n` null, `w` 16-bit
+                let f = match it.next()? {
+                    "z" => e2e::FabF::Idx(0),
+                    "n" => e2e::FabF::Null,
+                    "w" => e2e::FabF::Wide,
+                    k => match k.parse::<u8>().ok()? {
+                        0 => e2e::FabF::Absent,
+                        k => e2e::FabF::Idx(k),
+                    },
+                };
+                Some((e, c, v, f))
             })
             .collect()
     };
     let (opcode, payload) = match kind {
         "r" => (rs_matter::im::OpCode::ReadRequest, read_req(&paths)),
-        "v" => (rs_matter::im::OpCode::ReadRequest, event_read_req(&paths)),
+        // for an event read the flag field carries `isFabricFiltered`: `u` = false (unfiltered), else true
+        "v" => (rs_matter::im::OpCode::ReadRequest, event_read_req(&paths, w[7] != "u")),
         "w" => (rs_matter::im::OpCode::WriteRequest, write_req(&paths, flag)),
         "W" => (rs_matter::im::OpCode::WriteRequest, write_req_chunk(&paths, flag, chunk_paths.len() > 1)),
         _ => (rs_matter::im::OpCode::InvokeRequest, inv_req_refs(&paths, flag)),
@@ -333,6 +347,13 @@ impl Metadata for SwapMeta {
 }
 
 fn run_x<M: Metadata + Copy>(matter: &Matter<'_>, node: M, w: &[&str], out: &mut Out) -> String {
+    run_x_wipe(matter, node, w, None, out)
+}
+
+/// `wipe_at = Some(k)`: (writes) the ACL of the requester's fabric is emptied after `k` calls of the
+/// expander's `next` — what the handler of a WriteRequest item that rewrites the ACL does between two
+/// calls; calls `0..k` see the ACL as configured, the later calls the emptied one
+fn run_x_wipe<M: Metadata + Copy>(matter: &Matter<'_>, node: M, w: &[&str], wipe_at: Option<usize>, out: &mut Out) -> String {
     let kind = w[1];
     let fab: u8 = w[2].parse().unwrap_or(0);
     let mode = c05::mode_of(w[3]);
@@ -394,12 +415,24 @@ fn run_x<M: Metadata + Copy>(matter: &Matter<'_>, node: M, w: &[&str], out: &mut
             "w" => {
                 let bytes = write_req(&paths, timed);
                 let req = WriteReq::new(TLVElement::new(&bytes));
-                let it = match expand_write(node, &req, &accessor) {
+                let mut it = match expand_write(node, &req, &accessor) {
                     Ok(it) => it,
                     Err(_) => return vec!["err".to_string()],
                 };
-                for (n, item) in it.enumerate() {
-                    if n >= STEP_CAP {
+                let mut n = 0usize;
+                loop {
+                    if wipe_at == Some(n) {
+                        if let Some(f) = NonZeroU8::new(fab) {
+                            matter.with_state(|state| {
+                                if let Ok(fabric) = state.fabrics.fabric_mut(f) {
+                                    fabric.acl_remove_all();
+                                }
+                            });
+                        }
+                    }
+                    let Some(item) = it.next() else { break };
+                    n += 1;
+                    if n > STEP_CAP {
                         outs.push("HANG".into());
                         break;
                     }
@@ -492,6 +525,19 @@ fn run_case(matter: &Matter<'_>, env: &e2e::Env, out: &mut Out, case: &Case) {
             Some("e2e") if w.len() == 10 => {
                 let o = run_e2e(matter, env, node, &w, out);
                 if o.contains("ok ") || o.contains("ev ") {
+                    kinds.insert("item");
+                }
+                if o.contains("Unsupported") || o.contains("NeedsTimed") {
+                    kinds.insert("status");
+                }
+                out.op(op, &o);
+            }
+            // xa <same 9 fields as x (kind w)> <k>: the requester's fabric loses its ACL after k calls
+            Some("xa") if w.len() == 11 => {
+                let k: usize = w[10].parse().unwrap_or(0);
+                let o = run_x_wipe(matter, node, &w[..10], Some(k), out);
+                out.stat("acl_rewrite_requests", 1);
+                if o.contains("ok ") {
                     kinds.insert("item");
                 }
                 if o.contains("Unsupported") || o.contains("NeedsTimed") {
@@ -630,7 +676,7 @@ fn node_spec(eps: &[GEndpoint]) -> String {
         .join(";")
 }
 
-fn gen_case(r: &mut Rng, out: &mut Out, nx: usize, case_id: u64) -> Vec<String> {
+fn gen_case(r: &mut Rng, out: &mut Out, nx: usize, _case_id: u64) -> Vec<String> {
     let mut ops: Vec<String> = Vec::new();
     // access control: 1-2 fabrics, a few entries of decreasing generosity
     let nf = r.range(1, 2);
@@ -958,11 +1004,12 @@ fn gen_case(r: &mut Rng, out: &mut Out, nx: usize, case_id: u64) -> Vec<String> 
                             let c = &e.clusters[r.below(e.clusters.len() as u64) as usize];
                             cl = Some(c.id as u64);
                             let enabled: Vec<u32> = c.evs.iter().filter(|l| c.fm & (1 << (l.id % 32)) != 0).map(|l| l.id).collect();
-                            if !enabled.is_empty() {
+                            if !enabled.is_empty() && r.chance(5, 6) {
                                 ev = Some(*r.pick(&enabled) as u64);
-                            } else if case_id % 2500 == 7 && case_id < 10000 {
-                                // a concrete path naming an absent event (known finding C06-absent-event-silent)
-                                ev = Some(9);
+                            } else if r.chance(1, 2) {
+                                // a concrete path naming an event the cluster does not have: UnsupportedEvent
+                                // (fixed finding C06-absent-event-silent; also disabled ids)
+                                ev = Some(*r.pick(&[9u64, 0, 1, 2, 7]));
                             }
                         } else {
                             cl = Some(99);
@@ -979,11 +1026,10 @@ fn gen_case(r: &mut Rng, out: &mut Out, nx: usize, case_id: u64) -> Vec<String> 
                         3 => { cl = None; ev = None; }
                         _ => {}
                     }
-                    // never (outside the marked cases) a concrete path to an event the cluster lacks
                     if let (Some(e), Some(c), Some(v)) = (ep, cl, ev) {
                         let ok = eps.iter().any(|x| x.id as u64 == e && x.clusters.iter().any(|y| y.id as u64 == c && y.evs.iter().any(|l| l.id as u64 == v && y.fm & (1 << (l.id % 32)) != 0)));
-                        if exists_ec && !ok && !(case_id % 2500 == 7 && case_id < 10000) {
-                            ev = None;
+                        if exists_ec && !ok {
+                            out.stat("path_v_absent_event", 1);
                         }
                     }
                     out.stat(&format!("path_v_{}{}{}", if ep.is_some() { "E" } else { "*" }, if cl.is_some() { "C" } else { "*" }, if ev.is_some() { "L" } else { "*" }), 1);
@@ -991,7 +1037,8 @@ fn gen_case(r: &mut Rng, out: &mut Out, nx: usize, case_id: u64) -> Vec<String> 
                 }
                 let nem = r.range(0, 6);
                 for _ in 0..nem {
-                    let fabf = *r.pick(&[0u64, 0, 0, 1, 2, 3]);
+                    let fabf = *r.pick(&["0", "0", "0", "1", "1", "2", "2", "3", "z", "n", "w"]);
+                    out.stat(&format!("e2e_emit_fab_{}", if fabf == "0" { "absent" } else if fabf == "n" || fabf == "w" { "unreadable" } else { "index" }), 1);
                     let mut done = false;
                     if !eps.is_empty() && r.chance(4, 5) {
                         let e = &eps[r.below(eps.len() as u64) as usize];
@@ -1062,10 +1109,51 @@ fn gen_case(r: &mut Rng, out: &mut Out, nx: usize, case_id: u64) -> Vec<String> 
             }
             let cats = if mode == "c" && r.chance(1, 4) { *r.pick(&["65538", "65539", "65537", "131074", "65537,131075"]) } else { "-" };
             if cats != "-" { out.stat("e2e_requester_with_cats", 1); }
+            // an event read: the flag field carries the requester-controlled `isFabricFiltered`
+            // (`u` = false: the requester asks for the unfiltered view)
+            let flag_s = if kind == "v" {
+                let unf = r.chance(1, 2);
+                out.stat(if unf { "e2e_v_unfiltered" } else { "e2e_v_filtered" }, 1);
+                if unf { "u".to_string() } else { "0".to_string() }
+            } else {
+                flag.to_string()
+            };
             ops.push(format!(
                 "e2e {} {} {} {} {} {} {} {} {}",
-                kind, fab, mode, id, cats, treq, flag, paths.join(";"), if emit.is_empty() { "-".to_string() } else { emit.join(",") }
+                kind, fab, mode, id, cats, treq, flag_s, paths.join(";"), if emit.is_empty() { "-".to_string() } else { emit.join(",") }
             ));
+        }
+    }
+    // a WriteRequest whose handler rewrites the ACL between the expander's calls (last: the ACL of the
+    // requester's fabric is gone afterwards): repeated concrete paths (cache hits) and other paths
+    if !eps.is_empty() && r.chance(1, 3) {
+        let fab = r.range(1, nf);
+        let id = *r.pick(&[1u64, 1, 2, 112233]);
+        let timed = if r.chance(1, 2) { 1 } else { 0 };
+        let mut pool: Vec<String> = Vec::new();
+        for e in &eps {
+            for c in &e.clusters {
+                for l in &c.attrs {
+                    pool.push(format!("{}/{}/{}", e.id, c.id, l.id));
+                }
+            }
+        }
+        if !pool.is_empty() {
+            let np = r.range(2, 5);
+            let mut paths: Vec<String> = Vec::new();
+            for _ in 0..np {
+                if !paths.is_empty() && r.chance(1, 2) {
+                    let p = paths[paths.len() - 1].clone();
+                    paths.push(p);
+                } else if r.chance(1, 6) {
+                    paths.push(format!("*/{}/{}", r.pick(&CLUSTERS), r.below(3)));
+                } else {
+                    paths.push(r.pick(&pool).clone());
+                }
+            }
+            let k = r.range(0, 3);
+            out.stat(&format!("acl_rewrite_after_{}", k), 1);
+            ops.push(format!("xa w {} c 0 {} - {} - {} {}", fab, id, timed, paths.join(";"), k));
         }
     }
     ops
@@ -1079,7 +1167,7 @@ pub fn gen(a: &Args) -> String {
         let mut out = Out::default();
         let env = e2e::new_env();
         embassy_time::MockDriver::get().reset();
-        out.buf.push_str("#rule one case = an access-control configuration (fabrics, entries, group tables, built through the real API) + generated node metadata (0..4 endpoints x 0..3 clusters x 0..4 attributes / 0..3 commands with declared and random access bits, timed-only / fabric-scoped marks, partially disabled by the feature map; 1 in 8 nodes has duplicate ids) + requests run through the real expand_read / expand_write / expand_invoke with real request TLVs (also with the node composition replaced between the expander's calls, and end to end through the real InteractionModel with a logging handler, timed requests under virtual time, PASE sessions without fabric, event reads, chunked writes with a TimedRequest flag per chunk and the clock moving between the chunks): 1..4 paths (concrete, each wildcard shape, absent ids, repeats), requester in {PASE with/without fabric, CASE, Group, missing fabric}, timed flag, read filter; non-trivial = the case produced both items and statuses\n");
+        out.buf.push_str("#rule one case = an access-control configuration (fabrics, entries, group tables, built through the real API) + generated node metadata (0..4 endpoints x 0..3 clusters x 0..4 attributes / 0..3 commands with declared and random access bits, timed-only / fabric-scoped marks, partially disabled by the feature map; 1 in 8 nodes has duplicate ids) + requests run through the real expand_read / expand_write / expand_invoke with real request TLVs (also with the node composition replaced between the expander's calls, and end to end through the real InteractionModel with a logging handler, timed requests under virtual time, PASE sessions without fabric, event reads with isFabricFiltered set / cleared over events with, without and with an unreadable FabricIndex, chunked writes with a TimedRequest flag per chunk and the clock moving between the chunks; and a write during which the ACL of the requester's fabric is emptied between the expander's calls): 1..4 paths (concrete, each wildcard shape, absent ids, repeats), requester in {PASE with/without fabric, CASE, Group, missing fabric}, timed flag, read filter; non-trivial = the case produced both items and statuses\n");
         let n_cases: u64 = if thorough { 100000 } else { 10000 };
         for id in 1..=n_cases {
             let mut cr = r.fork();
